@@ -45,7 +45,8 @@ CallF(fault) == /\ phase = "inside" /\ Len(calls) < MaxCalls
                 /\ UNCHANGED <<phase, prev, cur, flushFails, flushes, escaped, progExc, seen>>
 
 Exit(how) == /\ phase = "inside" /\ phase' = "after"
-             /\ progExc' = IF how = "exception" THEN "prog" ELSE "none"
+             \* "sysexit": the program leaves by a BaseException that is not an Exception (SystemExit)
+             /\ progExc' = IF how = "normal" THEN "none" ELSE "prog"
              /\ cur' = prev                      \* sys.setprofile(old_trace) comes first
              /\ flushes' = flushes + 1
              /\ IF flushFails /\ Dev_FlushEscapes
@@ -54,7 +55,7 @@ Exit(how) == /\ phase = "inside" /\ phase' = "after"
              /\ hist' = Append(hist, [op |-> "Exit", x |-> how])
              /\ UNCHANGED <<prev, calls, flushFails, logged>>
 
-Next == Enter \/ (\E f \in {"ok", "log", "inspect"} : CallF(f)) \/ (\E h \in {"normal", "exception"} : Exit(h))
+Next == Enter \/ (\E f \in {"ok", "log", "inspect"} : CallF(f)) \/ (\E h \in {"normal", "exception", "sysexit"} : Exit(h))
 Spec == Init /\ [][Next]_vars
 
 \* C03
